@@ -88,7 +88,7 @@ fn drain(q: &AnyQ) -> Vec<u64> {
     let _ = 0; // (handles leaked by the bodies keep has_consumer == false: pop through the raw interface)
     match q {
         AnyQ::Iq(a) => { while let Some(v) = unsafe { a.pop() } { r.push(v); } }
-        AnyQ::Oq(a) => { while let Some(v) = unsafe { a.pop() } { r.push(v); } }
+        AnyQ::Oq(a) => { while let Some(v) = unsafe { a.pop() } { r.push(v); if r.len() > 64 { r.push(999999999); break; } } }
         AnyQ::Sq1(a) => { while let Some(v) = unsafe { a.pop() } { r.push(v); } }
         AnyQ::Sq2(a) => { while let Some(v) = unsafe { a.pop() } { r.push(v); } }
         AnyQ::Sq3(a) => { while let Some(v) = unsafe { a.pop() } { r.push(v); } }
@@ -109,7 +109,7 @@ fn emit(kind: &str, cap: usize, prog: &[Vec<Op>], ex: &Exec, q: &AnyQ, out: &mut
 /// grab the handles (hand-over) -- values are distinct so duplication/loss is visible
 fn programs(kind: &str) -> Vec<(usize, Vec<Vec<Op>>)> {
     let mut v = Vec::new();
-    let caps: &[usize] = if kind == "sq" { &[1, 2, 3] } else { &[1, 2, 3] };
+    let caps: &[usize] = if kind == "oq" { &[0, 1, 2, 3] } else { &[1, 2, 3] };
     for &cap in caps {
         for np in 1..=3u64 {
             for nc in 1..=3usize {
@@ -153,7 +153,7 @@ fn main() {
             for n in 0..count {
                 if n % nsh != shard { continue; }
                 let mut rng = Rng(seed ^ n.wrapping_mul(0x2545F4914F6CDD1D));
-                let cap = 1 + rng.below(3) as usize;
+                let cap = if kind == "oq" { rng.below(4) as usize } else { 1 + rng.below(3) as usize };
                 let len = 4 + rng.below(20) as usize;
                 let mut p = vec![Op::AcqP]; let mut c = vec![Op::AcqC];
                 for i in 0..len { p.push(Op::Push(100 + i as u64)); if rng.below(8) == 0 { p.push(Op::RelP); p.push(Op::AcqP); } }
